@@ -44,10 +44,6 @@ theorem C07_links_eq_spec_message_no235 (t : List Desc) (n : Nat) (bits : Bits) 
   obtain ⟨i, hi, rfl⟩ := List.mem_iff_getElem.mp ho
   exact C07_links_eq_spec_no235 t _ _ _ (hs i (by omega) hi) hwf hno hok
 
-theorem decV_replicate (n : Nat) (bits : Bits) : decV { bits := bits, vals := List.replicate n [] } = [] := by
-  unfold decV
-  cases n <;> rfl
-
 /-- compressed messages: all subsets share labels and links; the links are `Spec.links` of the items of the
     first subset (whose values are the bit-maps the coder uses) -/
 theorem C07_links_eq_spec_compressed (t : List Desc) (n : Nat) (bits : Bits) (outs : List SubsetOut) (rest : Bits)
@@ -81,39 +77,6 @@ theorem C07_links_eq_spec_compressed (t : List Desc) (n : Nat) (bits : Bits) (ou
       exact ⟨rfl, by simp only; rw [this, hitems]⟩
 
 /-! ### the encoder -/
-
-theorem zip_take_length {α β : Type} (l : List α) (r : List β) : l.zip (r.take l.length) = l.zip r := by
-  induction l generalizing r with
-  | nil => simp
-  | cons a l ih =>
-    cases r with
-    | nil => simp
-    | cons b r => simp [ih r]
-
-/-- what the encoder's walk records, against the values supplied for the first subset -/
-theorem encoder_walk_links {P : Prims} (hR : ∀ vs, Rec P encV (encXv vs)) (t : List Desc) (hwf : Spec.WFlinks t)
-    (s0 s : St) (hd : s0.descs = []) (hl : s0.links = []) (hr : s0.regs = {}) (hi : s0.idx = 0)
-    (hw : walkList P t s0 = .ok s)
-    (hok : Spec.markersOk (s.descs.reverse.zip (curVals s0)) = true) :
-    s.links.reverse = Spec.links (s.descs.reverse.zip (curVals s0)) (Spec.cancelsL P t s0) := by
-  have hv0 : encV s0 = [] := by unfold encV; rw [hi]; rfl
-  have hx0 : encXv (curVals s0) s0 := ⟨by unfold encX; rw [hi]; exact Nat.zero_le _, rfl⟩
-  have hg := grows_walkList (hR (curVals s0)) t s0 s (by rw [hv0, hd]; rfl) hw
-  obtain ⟨hx1, hx2⟩ := hg.2.2.2 hx0
-  have hlen : (encV s).length = s.descs.length := hg.1
-  have hidx : s.idx = s.descs.length := by
-    unfold encV at hlen
-    unfold encX at hx1
-    rw [List.length_take] at hlen
-    omega
-  have hitems : items encV s = s.descs.reverse.zip (curVals s0) := by
-    unfold items encV
-    rw [hx2, hidx]
-    have := zip_take_length s.descs.reverse (curVals s0)
-    rw [List.length_reverse] at this
-    exact this
-  rw [← hitems] at hok
-  rw [(walk_links_eq_spec (hR (curVals s0)) t hwf s0 s hd hl hr hv0 hx0 hw hok).1, hitems]
 
 /-- THE HEADLINE for the encoder, one subset -/
 theorem C07_encoder_links_eq_spec (t : List Desc) (vals : List Val) (pre : Bits) (o : SubsetOut) (b : Bits)
